@@ -4,6 +4,7 @@ import (
 	"bytes"
 	"fmt"
 	"strings"
+	"unicode/utf8"
 
 	"github.com/risor-io/risor/errz"
 	"github.com/risor-io/risor/token"
@@ -101,9 +102,26 @@ func (e *BaseParserError) FriendlyErrorMessage() string {
 	} else {
 		msg.WriteString(fmt.Sprintf("location: %s", friendlyLoc))
 	}
-	msg.WriteString("\n" + e.SourceCode() + "\n")
-	pad := strings.Repeat(" ", colStart-1)
-	msg.WriteString(pad + strings.Repeat("^", colEnd-colStart+1))
+	sourceCode := e.SourceCode()
+	msg.WriteString("\n" + sourceCode + "\n")
+
+	// Underline the span in the quoted line. The end of the span may lie on a
+	// later line than its start (a multi-line string, or a token that follows
+	// a multi-line comment). Its column is then unrelated to the quoted line,
+	// so the underline runs to the end of that line instead.
+	padLen := colStart - 1
+	if padLen < 0 {
+		padLen = 0
+	}
+	caretLen := colEnd - colStart + 1
+	if end.Line != start.Line {
+		caretLen = utf8.RuneCountInString(sourceCode) - padLen
+	}
+	if caretLen < 1 {
+		caretLen = 1
+	}
+	pad := strings.Repeat(" ", padLen)
+	msg.WriteString(pad + strings.Repeat("^", caretLen))
 	return msg.String()
 }
 
